@@ -153,6 +153,17 @@ class Int:
         return hash(self.v)
 
 
+class SymInt:
+    """symbolic small integer (only produced by representation queries such as Decimal::n_frac_digits)"""
+    __slots__ = ("term", "ty")
+
+    def __init__(self, term, ty):
+        self.term, self.ty = term, ty
+
+    def __repr__(self):
+        return "SymInt(%s)" % self.term
+
+
 UNIT = Tup(())
 
 
@@ -575,6 +586,8 @@ class Executor:
         th = self.th.named_const(c)
         if th is not None:
             return th
+        if last == "MAX_N_FRAC_DIGITS" and "fpdec" in c:
+            return Int(18, "u8")            # documented constant of fpdec 0.11
         cs = self.P.const_by_last.get(last, [])
         if cs:
             exact = [b for b in cs if b.name == c or norm_ty(b.name) == norm_ty(c)]
@@ -637,6 +650,8 @@ class Executor:
                 return self.th.const_int(v.v)
             if kind == "IntToInt":
                 ty = norm_ty(rv[2])
+                if isinstance(v, SymInt):
+                    return SymInt(v.term, ty)
                 return Int(_wrap(v.v, ty), ty)
             if kind.startswith("PointerCoercion") or kind in ("PtrToPtr", "Transmute", "Subtype"):
                 return v
@@ -688,6 +703,19 @@ class Executor:
             if op in ("Eq", "Ne", "Lt", "Le", "Gt", "Ge"):
                 return self.th.cmp(op, a, b)
             raise Unsupported("amount binop " + op)
+        if isinstance(a, SymInt) or isinstance(b, SymInt):
+            if isinstance(a, (Int, SymInt)) and isinstance(b, (Int, SymInt)):
+                x = a.term if isinstance(a, SymInt) else z3.IntVal(a.v)
+                y = b.term if isinstance(b, SymInt) else z3.IntVal(b.v)
+                ty = a.ty
+                if op in ("Eq", "Ne", "Lt", "Le", "Gt", "Ge"):
+                    return {"Eq": x == y, "Ne": x != y, "Lt": x < y, "Le": x <= y, "Gt": x > y, "Ge": x >= y}[op]
+                if op in ("Add", "Sub", "Mul", "AddUnchecked", "SubUnchecked", "MulUnchecked"):
+                    return SymInt({"A": x + y, "S": x - y, "M": x * y}[op[0]], ty)
+                if op in ("AddWithOverflow", "SubWithOverflow", "MulWithOverflow"):
+                    # representation queries are bounded by 18, far from any overflow of the machine type
+                    return Tup([SymInt({"A": x + y, "S": x - y, "M": x * y}[op[0]], ty), False])
+            raise Unsupported("binop %s on symbolic integer" % op)
         if isinstance(a, Int) and isinstance(b, Int):
             x, y = a.v, b.v
             if op in ("Eq", "Ne", "Lt", "Le", "Gt", "Ge"):
@@ -1066,6 +1094,10 @@ class Executor:
         if head == "Decimal" and meth == "new_raw":
             used("Decimal::new_raw")
             return [Outcome(st, th.const_decimal(args[0].v, args[1].v))]
+        if head == "Decimal" and meth == "n_frac_digits" and hasattr(th, "nfd"):
+            used("Decimal::n_frac_digits (declared digits of constants; any value 0..18 for computed / symbolic amounts)")
+            n_ = th.nfd(deref(args[0]))
+            return [Outcome(st, Int(n_, "u8") if isinstance(n_, int) else SymInt(n_, "u8"))]
         # ---- std's provided methods of PartialOrd / PartialEq for types that only define partial_cmp / eq
         #      (documented: a < b iff partial_cmp == Some(Less), a <= b iff Some(Less | Equal), ..., a != b iff !(a == b))
         if trait == "PartialOrd" and meth in ("lt", "le", "gt", "ge") and head != self.AMT and len(args) == 2:
